@@ -318,6 +318,9 @@ def finish(prop: str, tier: str, seed: int, level: str, stats: Stats, t0: float,
         by_bucket.setdefault(v["bucket"], []).append(v)
     rc = 0
     unlisted = 0
+    if os.environ.get("VERIF_DUMP"):
+        with open(os.environ["VERIF_DUMP"], "w") as f:
+            json.dump(stats.violations, f, indent=1, default=repr)
     for b, vs in sorted(by_bucket.items()):
         if b in open_keys:
             print(f"KNOWN-FINDING: property={prop} {open_keys[b]['what']} [bucket {b}, {stats._bucket_counts.get(b, len(vs))} cases]")
